@@ -9,9 +9,9 @@ WORLDS = {
  "C04": ("SRC + DST, reference retry automata with their own clock", "limits N in 1..3 for EOF, Finished, NAK procedures [all 9 limit pairs]; NAKs at the sender during the EOF wait; cancellation exchange and abandonment; NAK and cancel request also after the EOF was acknowledged"),
  "C05": ("DST + write model", "depth 5 [7], 16-event alphabet, both modes, NAK modes, 4 destination shapes, disposition, second transaction; PDUs with the large-file flag"),
  "C06": ("DST (ack) + interval model", "2-3 segments [up to 4], each PDU <=2 copies, max_packet_len 512 / 35 / 27; large-file-flag PDUs (max_packet_len 43 / 59); Metadata announcing size 0 (unbounded file)"),
- "C07": ("SRC, configuration product + large-file prefix runs", "every size 0..3L+1 x L in 1..5; derived segment lengths (configured <,=,> derived); widths; checksum types; 36 prefix runs of a 2^32+5 byte file; one failing filestore read at any point; Finished PDUs with another CRC flag / id width"),
+ "C07": ("SRC, configuration product + large-file prefix runs", "every size 0..3L+1 x L in 1..5; derived segment lengths (configured <,=,> derived); widths; checksum types; 36 prefix runs of a 2^32+5 byte file; one failing filestore read at any point; Finished PDUs with another CRC flag / id width; request x MIB mode/closure product (72 worlds)"),
  "C08": ("SRC (ack), NAK alphabet", "all pairs over offsets {0, seg, size-1, size, size+1, 2^32-1} + 2-request NAKs, <=2 NAKs per run [<=2], 5 put requests incl. one carrying every option list; configured segment length larger than derived; two transactions on one handler"),
- "C09": ("CKSUM", "all 256 one-byte files; 5-letter alphabet to length 4 [6]; {00,FF} to length 9 [11]; every prefix x chunk x type"),
+ "C09": ("CKSUM", "all 256 one-byte files; 5-letter alphabet to length 4 [6]; {00,FF} to length 9 [11]; every prefix x chunk x type; CKSBIG: 2 patterns x 6 [11] boundary lengths up to 70001 [131073] x boundary prefixes x boundary chunks x type"),
  "C10": ("SRC + DST wide alphabet, partial draining, late-state prefixes", "depth 5 [7] from idle, depth 8 [10] from 7 late states, 15-38 events; Metadata PDUs with unusual destination names / one name missing; destination shape `dir_dir`; invariants num_packets_ready == queue length, no queued PDU vanishes"),
  "C11": ("HIST-DST, HIST-SRC, SIBLING", "history depth 5 / 7 [6 / 9], 7 + 9 follow-up scripts (gap, late metadata, cancel, silence, request overrides, re-sends), 8+8 step sibling scripts; histories ending by abandonment (overridden handler codes); follow-ups after the source file was rewritten"),
  "C12": ("SRC + DST with cancel requests", "sizes 0, L-1, 2L+1, both modes, closure, disposition, CRC-32/modular, metadata-only, <=2 cancel requests and <=2 NAKs per run, EOF(cancel) before and during the check-limit wait; EOF(cancel) before the Metadata and while missing data is re-requested; second transaction at the sender; cancel request followed at once by a put request"),
@@ -20,7 +20,7 @@ WORLDS = {
  "C15": ("E2E (ff, K=1, cancel, two transactions)", "16 switch settings x 3 mode/closure; 6 message lists; K=1; cancel requests; second transaction with request-level overrides; cancel request + one fault; positive ACK limit 1; receiver world with PDUs of another transaction (depth 5 [7])"),
  "C16": ("E2E pair native / in-memory", "C02-style subset incl. 4 destination shapes, K=1, cancel requests with disposition and modular checksum [K=2, drop+cancel]; uncreatable destinations, refused writes, handler codes abandon / ignore"),
  "C17": ("FS", "fixed point over paths a,b,d,d/a [+ d/b], 5 write / 5 read variants"),
- "C18": ("TRK", "fixed point, offsets 0..6 [0..12]"),
+ "C18": ("TRK", "fixed point, offsets 0..9 [0..12]"),
  "C19": ("SRC without initial request + PAIR", "36 mode/closure settings, 5 put variants at every step, <=2 transactions, <=3 [4] attempts; 2 handlers sharing a provider; whole-file NAK with configured vs derived segment length"),
  "C20": ("ROUTE (E2E + probe transitions, second ACK probe) + ACK-INACTIVE", "288 PDU shapes x every state of ff and single-drop graphs; 640 acknowledge_inactive_eof_pdu cases"),
 }
